@@ -497,7 +497,9 @@ func (ex *Exec) step(st *State, fr *Frame, in ssa.Instruction) {
 	case *ssa.DebugRef:
 	case *ssa.Alloc:
 		et := x.Type().Underlying().(*types.Pointer).Elem()
-		fr.regs[x] = st.allocCell(zeroValue(et), true, x.Comment)
+		ap := st.allocCell(zeroValue(et), true, x.Comment)
+		st.heap[ap.Obj].T = et
+		fr.regs[x] = ap
 	case *ssa.BinOp:
 		fr.regs[x] = ex.binop(st, fr, x, x.Op, ex.operand(st, fr, x.X), ex.operand(st, fr, x.Y), x.X.Type(), x.Y.Type())
 	case *ssa.UnOp:
